@@ -11,8 +11,12 @@ rnd = random.Random(int(os.environ.get("VERIF_SEED", "0")))
 SHIFT = [0]
 
 
+INT = [False]
+
+
 def fn(a, b):
-    return float(100 * a + b + SHIFT[0])
+    v = 100 * a + b + SHIFT[0]
+    return int(v) if INT[0] else float(v)      # integer outputs too: locations never harvested must stay empty
 
 
 def disk_model(ds):
@@ -29,9 +33,10 @@ def history(engine, with_ext, length):
     with tmpdir() as d, quiet():
         name = os.path.join(d, "full" + ({"h5netcdf": ".h5", "joblib": ".dmp"}[engine] if with_ext else ""))
         mk = lambda: xyz.Harvester(xyz.Runner(fn, "x"), data_name=name, engine=engine)
+        INT[0] = rnd.random() < 0.5
         h = mk()
         model = {}
-        hist = []
+        hist = ["integer outputs" if INT[0] else "float outputs"]
         for step in range(length):
             if rnd.random() < 0.3:
                 h = mk()
@@ -67,7 +72,7 @@ def history(engine, with_ext, length):
             dsk = disk_model(xyz.load_ds(name, engine=engine))
             if mem != model:
                 lost = sorted(set(model) - set(mem))
-                return [f"in-memory full_ds differs from what was harvested (lost {lost[:4]}, wrong {[k for k in mem if model.get(k) != mem[k]][:4]})"], hist
+                return [f"in-memory full_ds differs from what was harvested (lost {lost[:4]}, wrong or never harvested {[(k, mem[k]) for k in mem if model.get(k) != mem[k]][:4]})"], hist
             if dsk != model:
                 return [f"dataset on disk differs from what was harvested (lost {sorted(set(model) - set(dsk))[:4]})"], hist
     return None, hist
